@@ -171,6 +171,27 @@ def run(ctx):
                     evs.append(inv)
                     if not inv["exc"]:
                         evs.append(d.dir_event(zone, e1, n1, hemi, ell, inv, tag + (" adjacent" if z2 != zone else "")))
+    # lines that straddle the central meridian (one easting below, one above the false easting)
+    k = 0
+    for zone in zones:
+        cm = zone * 6 - 183
+        for lat in (-60.0, -20.0, 35.0, 75.0):
+            for (d1, d2) in ((30000.0, 45000.0), (5000.0, 2000.0), (300.0, 80000.0), (49000.0, 49000.0)):
+                k += 1
+                if quick and k % 2:
+                    continue
+                ell = ells[k % 4]
+                E = ell[1]
+                hemi = "south" if lat < 0 else "north"
+                n1 = cv.geo2grid(lat, float(cm), zone, E)[3]
+                e1, e2 = 500000.0 - d1, 500000.0 + d2
+                n2 = round(n1 + rnd.uniform(-20000, 20000), 4)
+                if not (0 <= n2 <= 10000000):
+                    continue
+                inv = d.inv_event(zone, e1, round(n1, 4), zone, e2, n2, hemi, ell, "straddles CM zone%d lat%g" % (zone, lat))
+                evs.append(inv)
+                if not inv["exc"]:
+                    evs.append(d.dir_event(zone, e1, round(n1, 4), hemi, ell, inv, "straddles CM"))
     tris = [(3, 4, 5), (5, 12, 13), (12, 5, 13), (8, 15, 17), (7, 24, 25), (20, 21, 29), (9, 40, 41), (40, 9, 41), (4, 3, 5), (15, 8, 17)]
     tris = [t for t in tris if math.degrees(math.atan2(t[0], t[1])) <= 83]
     for i, t1 in enumerate(tris):
